@@ -5,7 +5,7 @@ SPEC = {
     "lean_dirs": ["SemaModel/C08", "SemaModel/C04"],
     "harness": "c08",
     "harness_args": {
-        "quick": ["-cache", 120, "-ops", 50, "-hist", 12, "-batches", 9, "-queries", 12],
+        "quick": ["-cache", 120, "-ops", 50, "-hist", 18, "-batches", 9, "-queries", 12],
         "thorough": ["-cache", 4000, "-ops", 70, "-hist", 200, "-batches", 14, "-queries", 14],
     },
     "timeout": {"quick": 600, "thorough": 3000},
